@@ -61,6 +61,11 @@ TABLE = {
             'mixed second derivatives of an independently written chi-square (incl. the x-residual term) at the stationary point, and every parameter fluctuation is -X d(data) in the library\'s data order; '
             'with H X = M this is the implicit-function rule for all sample values.',
             'Minimiser / ODRPACK numerics replaced by the stationary-point contract; the re-fit corollary and the dx->0 limit are consequences, not separately run; final linear-algebra step is an argument.'),
+    'C10': (True, 'symbolic execution of linalg.matmul / jack_matmul / inv / _scalar_mat_op / array_mode on matrices of symbolic observables; SMT equivalence modulo embedding; LAPACK inverse replaced by its (differentiated) contract',
+            'matmul (real, complex, 2-3 factors) and array_mode equal the explicit sum of element products; jack_matmul has the exact central value and the jackknife pseudo-value fluctuations; '
+            'inv(): the matrix handed to LAPACK is A (resp. [[A,-B],[B,A]]), the result carries X (resp. X11 + i X21) and every fluctuation is -(X dM X), which with M X = 1 gives A inv(A) = 1 in value and every fluctuation; '
+            '_scalar_mat_op reassembles row-major.',
+            'cholesky, det, eigh, eig, pinv, svd and einsum are outside (LAPACK decompositions / dtype dispatch cannot be encoded); the final step M X = 1 => identity is an argument except for the 1x1 end-to-end case.'),
 }
 
 NOT_YET = 'check not built yet in this session (work in progress; see DESIGN.md section 4 for the plan)'
